@@ -1360,6 +1360,11 @@ class _CallMixin:
             return self.instantiate(f.info, args, kwargs, node)
         if isinstance(f, Ext):
             return self.call_ext(f.name, args, kwargs, node)
+        if isinstance(f, Op) and f.op == "partial" and f.args:
+            kw0 = {a.args[0].v: a.args[1] for a in f.args[1:] if isinstance(a, Op) and a.op == "kv"}
+            pos0 = [a for a in f.args[1:] if not (isinstance(a, Op) and a.op == "kv")]
+            kw0.update(kwargs)
+            return self.call_value(f.args[0], pos0 + list(args), kw0, node)
         if isinstance(f, Op) and f.op == "methodcaller" and is_const(f.args[0], str) and args:
             return self.call_method(args[0], f.args[0].v, list(f.args[1:]) + list(args[1:]), dict(kwargs), node)
         if isinstance(f, Op) and f.op == "attrgetter" and len(f.args) == 1 and is_const(f.args[0], str) and len(args) == 1:
@@ -1829,6 +1834,66 @@ class _StmtMixin:
                 self.exec_block(st.orelse)
             self.guard.pop()
 
+    def st_Match(self, st):
+        """match/case as an if/elif chain for the pattern kinds that reduce to comparisons: literals and dotted names,
+        None/True/False, alternatives, captures and wildcards, fixed-length sequences of those; optional guards"""
+        subj = self.ev(st.subject)
+        taken = []          # conditions of the earlier cases
+        for case in st.cases:
+            cond, binds = self.match_pattern(case.pattern, subj)
+            self.guard.append(and_(*[not_(c) for c in taken]))
+            self.guard.append(cond)
+            try:
+                if self.feasible():
+                    for name, val in binds:
+                        self.store_name(name, val)
+                    g = TRUE
+                    if case.guard is not None:
+                        g = self.truth(self.ev(case.guard))
+                    self.guard.append(g)
+                    try:
+                        if self.feasible():
+                            self.exec_block(case.body)
+                    finally:
+                        self.guard.pop()
+                    cond = and_(cond, g)
+            finally:
+                self.guard.pop()
+                self.guard.pop()
+            taken.append(cond)
+
+    def match_pattern(self, p, subj):
+        if isinstance(p, ast.MatchValue):
+            return self.cmp("eq", subj, self.ev(p.value)), []
+        if isinstance(p, ast.MatchSingleton):
+            return compare("is", subj, Const(p.value)), []
+        if isinstance(p, ast.MatchAs):
+            if p.pattern is None:
+                return TRUE, ([(p.name, subj)] if p.name else [])
+            c, b = self.match_pattern(p.pattern, subj)
+            return c, b + ([(p.name, subj)] if p.name else [])
+        if isinstance(p, ast.MatchOr):
+            cs = []
+            for alt in p.patterns:
+                c, b = self.match_pattern(alt, subj)
+                if b:
+                    raise AnalysisError("match: alternatives that bind names are not modelled (line %s)" % getattr(p, "lineno", "?"))
+                cs.append(c)
+            return or_(*cs), []
+        if isinstance(p, ast.MatchSequence) and not any(isinstance(x, ast.MatchStar) for x in p.patterns):
+            els = self.seq_elems(subj)
+            if els is None:
+                raise AnalysisError("match: sequence pattern on a value of unknown length (line %s)" % getattr(p, "lineno", "?"))
+            if len(els) != len(p.patterns):
+                return FALSE, []
+            cs, bs = [], []
+            for sub, e in zip(p.patterns, els):
+                c, b = self.match_pattern(sub, e)
+                cs.append(c)
+                bs += b
+            return and_(*cs), bs
+        raise AnalysisError("match: pattern kind %s is not modelled (line %s)" % (type(p).__name__, getattr(p, "lineno", "?")))
+
     def st_With(self, st):
         vals = []
         for item in st.items:
@@ -1905,9 +1970,6 @@ class _StmtMixin:
         if known is None:
             return self.local_guard()
         return and_(*[c for c in self._ordered(g) if c not in known])
-
-    def st_Match(self, st):
-        raise AnalysisError("match statement not modelled by the interpreter (line %s)" % getattr(st, "lineno", "?"))
 
 
 class _LoopMixin:
@@ -2779,6 +2841,62 @@ class _ExtMixin:
     def x_all(self, a, k, n):
         q = self._quant(a, n, False)
         return Op("call:all", *a) if q is None else not_(q)
+
+    def x_functools_partial(self, a, k, n):
+        return Op("partial", *a, *[Op("kv", Const(x), y) for x, y in sorted(k.items())])
+
+    def x_itertools_chain(self, a, k, n):
+        lists = [self.as_list(self.simp(x)) for x in a]
+        if all(l is not None for l in lists):
+            return self.alloc(ListObj(self.born_now(), [it for l in lists for it in l.items], "list"))
+        return None
+
+    def x_struct_unpack(self, a, k, n):
+        """struct.unpack with a constant big/little-endian format of fixed-size integer codes = one integer field per code"""
+        if len(a) != 2 or not is_const(a[0], str):
+            return None
+        f = a[0].v
+        order = "big"
+        if f[:1] in "><!=@":
+            order = "little" if f[0] == "<" else "big"
+            if f[0] in "=@":
+                return None
+            f = f[1:]
+        sizes = {"B": (1, False), "b": (1, True), "H": (2, False), "h": (2, True), "I": (4, False), "i": (4, True),
+                 "L": (4, False), "l": (4, True), "Q": (8, False), "q": (8, True)}
+        codes = []
+        num = ""
+        for ch in f:
+            if ch.isdigit():
+                num += ch
+            elif ch in sizes:
+                codes += [ch] * (int(num) if num else 1)
+                num = ""
+            elif ch == "x":
+                codes += ["x"] * (int(num) if num else 1)
+                num = ""
+            else:
+                return None
+        if num:
+            return None
+        total = sum(1 if c == "x" else sizes[c][0] for c in codes)
+        data = a[1]
+        # wrong length raises struct.error
+        ln = self.x_len([data], {}, n)
+        bad = compare("ne", ln, Const(total))
+        if bad != FALSE:
+            self.event("raise", (Op("call:struct.error"),), n)
+            self.note_raise(and_(self.local_guard(state=True), bad))
+        vals = []
+        off = 0
+        for c in codes:
+            if c == "x":
+                off += 1
+                continue
+            w, signed = sizes[c]
+            vals.append(Op("int_from_bytes", self.getslice(data, Const(off), Const(off + w), NONE, n), Const(order), Const(signed)))
+            off += w
+        return self.mk_list(vals, "tuple")
 
     def x_operator_methodcaller(self, a, k, n):
         if k:
